@@ -4,12 +4,12 @@ import Ebv.Model.HashVars
 * `members_disjoint`, `member_py_prog_same_bytes`, `py_prog_same_image`, `dict_images_disjoint`,
   `struct_roundtrip`: the byte layout of `Structure` members is the same in Python objects and in
   the program's stack image / looked-up value.
-* `refinement_partial`: every sequence of Python-side and program-side operations on a `Dict`
-  behaves like the abstract dictionary over member tuples (induction over the operation list).
-  Excluded class, explicit in `OutRel`: iterating an *empty* Dict (`iter_empty_refuted`).
-* `lookup_absent_else`, `hashvar_*`: absent keys take the Else branch; hash variables are
-  independent 64-bit cells holding the default after `load` and carrying values unchanged.
-  Fixed-point (`"x"`) variables cannot be read from Python (`hashvar_fixed_refuted`). -/
+* `refinement`: every sequence of Python-side and program-side operations on a `Dict` produces
+  exactly the observations of the abstract dictionary over member tuples (induction over the
+  operation list), iteration of an empty Dict included.
+* `lookup_absent_else`, `hashvar_*`: absent keys take the Else branch; hash variables (fixed-point
+  `"x"` ones included) are independent 64-bit cells holding the default after `load` and carrying
+  values unchanged in both directions. -/
 namespace Ebv.C09
 open Ebv.HashVars Ebv.Bytes Ebv.Consts
 
@@ -523,15 +523,6 @@ def OpOk (D : DictDecl) : Op → Prop
   | .prLookup k => allFit D.keyFmts k = true
   | .prModify k v => allFit D.keyFmts k = true ∧ allFit D.valFmts v = true
 
-/-- observable agreement; the only tolerated difference is the excluded class: iterating an empty Dict
-(the abstract dictionary yields no key, the implementation raises `RuntimeError`) -/
-def OutRel (abs conc : Out) : Prop := conc = abs ∨ (abs = .keys [] ∧ conc = .runtimeError)
-
-/-- pointwise `OutRel` of two observation lists of the same length -/
-inductive OutsRel : List Out → List Out → Prop where
-  | nil : OutsRel [] []
-  | cons {a c : Out} {as cs : List Out} : OutRel a c → OutsRel as cs → OutsRel (a :: as) (c :: cs)
-
 theorem emap_keys_read (D : DictDecl) : ∀ (a : AMap), (∀ e ∈ a, allFit D.keyFmts e.1 = true ∧ allFit D.valFmts e.2 = true) →
     (emap (encStruct D.keyFmts) (encStruct D.valFmts) a).map (fun e => readMembers 0 D.keyFmts e.1) = a.map Prod.fst
   | [], _ => rfl
@@ -547,7 +538,7 @@ theorem pop_deletes : dict_pop_cmd = bpf_LOOKUP_DELETE := by decide
 
 theorem step_refines (D : DictDecl) (hv : D.valid = true) (stack0 : Bytes) (hs : stack0.length = stackSize)
     (m : KMap) (a : AMap) (hR : Rel D m a) (op : Op) (hop : OpOk D op) :
-    Rel D (cStep D stack0 m op).1 (aStep D a op).1 ∧ OutRel (aStep D a op).2 (cStep D stack0 m op).2 := by
+    Rel D (cStep D stack0 m op).1 (aStep D a op).1 ∧ (cStep D stack0 m op).2 = (aStep D a op).2 := by
   obtain ⟨hm, hfit⟩ := hR
   subst hm
   have hfitK : ∀ e ∈ a, allFit D.keyFmts e.1 = true := fun e he => (hfit e he).1
@@ -566,64 +557,60 @@ theorem step_refines (D : DictDecl) (hv : D.valid = true) (stack0 : Bytes) (hs :
     · by_cases hvv : allFit D.valFmts v = true
       · simp only [cStep, aStep, pyStruct_fit _ _ hk, pyStruct_fit _ _ hvv, hk, hvv, Bool.and_self, ↓reduceIte]
         rw [UP k v 0 hk]
-        refine ⟨⟨rfl, INV k v 0 hk hvv⟩, Or.inl ?_⟩
+        refine ⟨⟨rfl, INV k v 0 hk hvv⟩, ?_⟩
         rcases update_any_code D.maxEntries a k v with h | h
         · simp [h]
         · simp [h, E2BIG]
       · have hvf : allFit D.valFmts v = false := by simpa using hvv
         simp only [cStep, aStep, pyStruct_fit _ _ hk, pyStruct_unfit _ _ lv hvf, hk, hvf, Bool.and_false,
           Bool.false_eq_true, ↓reduceIte]
-        exact ⟨⟨rfl, hfit⟩, Or.inl rfl⟩
+        exact ⟨⟨rfl, hfit⟩, by trivial⟩
     · have hkf : allFit D.keyFmts k = false := by simpa using hk
       simp only [cStep, aStep, pyStruct_unfit _ _ lk hkf, hkf, Bool.false_and, Bool.false_eq_true, ↓reduceIte]
-      exact ⟨⟨rfl, hfit⟩, Or.inl rfl⟩
+      exact ⟨⟨rfl, hfit⟩, by trivial⟩
   | pyGet k =>
     by_cases hk : allFit D.keyFmts k = true
     · simp only [cStep, aStep, pyStruct_fit _ _ hk, hk, ↓reduceIte, LK k hfitK hk]
       cases hl : lookup a k with
-      | none => exact ⟨⟨rfl, hfit⟩, Or.inl rfl⟩
+      | none => exact ⟨⟨rfl, hfit⟩, by trivial⟩
       | some v =>
         have hvf : allFit D.valFmts v = true := by
           obtain ⟨e, he, rfl⟩ := lookup_mem a k v hl
           exact (hfit e he).2
         simp only [Option.map_some, struct_roundtrip _ _ hvf]
-        exact ⟨⟨rfl, hfit⟩, Or.inl rfl⟩
+        exact ⟨⟨rfl, hfit⟩, by trivial⟩
     · have hkf : allFit D.keyFmts k = false := by simpa using hk
       simp only [cStep, aStep, pyStruct_unfit _ _ hop hkf, hkf, Bool.false_eq_true, ↓reduceIte]
-      exact ⟨⟨rfl, hfit⟩, Or.inl rfl⟩
+      exact ⟨⟨rfl, hfit⟩, by trivial⟩
   | pyDel k =>
     by_cases hk : allFit D.keyFmts k = true
     · simp only [cStep, aStep, pyStruct_fit _ _ hk, hk, ↓reduceIte, LK k hfitK hk]
       cases hl : lookup a k with
-      | none => exact ⟨⟨rfl, hfit⟩, Or.inl rfl⟩
+      | none => exact ⟨⟨rfl, hfit⟩, by trivial⟩
       | some v =>
         simp only [Option.map_some, ER k hfitK hk]
-        exact ⟨⟨rfl, fun e he => hfit e (mem_erase a k e he)⟩, Or.inl rfl⟩
+        exact ⟨⟨rfl, fun e he => hfit e (mem_erase a k e he)⟩, by trivial⟩
     · have hkf : allFit D.keyFmts k = false := by simpa using hk
       simp only [cStep, aStep, pyStruct_unfit _ _ hop hkf, hkf, Bool.false_eq_true, ↓reduceIte]
-      exact ⟨⟨rfl, hfit⟩, Or.inl rfl⟩
+      exact ⟨⟨rfl, hfit⟩, by trivial⟩
   | pyPop k =>
     by_cases hk : allFit D.keyFmts k = true
     · simp only [cStep, aStep, pyStruct_fit _ _ hk, hk, ↓reduceIte, LK k hfitK hk, pop_deletes]
       cases hl : lookup a k with
-      | none => exact ⟨⟨rfl, hfit⟩, Or.inl rfl⟩
+      | none => exact ⟨⟨rfl, hfit⟩, by trivial⟩
       | some v =>
         have hvf : allFit D.valFmts v = true := by
           obtain ⟨e, he, rfl⟩ := lookup_mem a k v hl
           exact (hfit e he).2
         simp only [Option.map_some, ER k hfitK hk, struct_roundtrip _ _ hvf]
-        exact ⟨⟨rfl, fun e he => hfit e (mem_erase a k e he)⟩, Or.inl rfl⟩
+        exact ⟨⟨rfl, fun e he => hfit e (mem_erase a k e he)⟩, by trivial⟩
     · have hkf : allFit D.keyFmts k = false := by simpa using hk
       simp only [cStep, aStep, pyStruct_unfit _ _ hop hkf, hkf, Bool.false_eq_true, ↓reduceIte]
-      exact ⟨⟨rfl, hfit⟩, Or.inl rfl⟩
+      exact ⟨⟨rfl, hfit⟩, by trivial⟩
   | pyIter =>
-    cases a with
-    | nil => exact ⟨⟨rfl, hfit⟩, Or.inr ⟨rfl, rfl⟩⟩
-    | cons e a =>
-      have hne : (emap (encStruct D.keyFmts) (encStruct D.valFmts) (e :: a)).isEmpty = false := by simp [emap]
-      simp only [cStep, aStep, hne, Bool.false_eq_true, ↓reduceIte]
-      refine ⟨⟨rfl, hfit⟩, Or.inl ?_⟩
-      rw [emap_keys_read D (e :: a) hfit]
+    simp only [cStep, aStep]
+    refine ⟨⟨rfl, hfit⟩, ?_⟩
+    rw [emap_keys_read D a hfit]
   | prUpdate k v fl =>
     obtain ⟨hk, hvv⟩ := hop
     obtain ⟨i1, i2, _⟩ := py_prog_same_image D hv stack0 hs k v hk hvv
@@ -631,27 +618,27 @@ theorem step_refines (D : DictDecl) (hv : D.valid = true) (stack0 : Bytes) (hs :
     rw [pyStruct_fit _ _ hvv] at i2
     simp only [cStep, aStep, Option.some.inj i1, Option.some.inj i2]
     rw [UP k v fl hk]
-    exact ⟨⟨rfl, INV k v fl hk hvv⟩, Or.inl rfl⟩
+    exact ⟨⟨rfl, INV k v fl hk hvv⟩, by trivial⟩
   | prLookup k =>
     have hvv0 : allFit D.valFmts (D.valFmts.map fun _ => (0 : Int)) = true := allFit_zero _
     obtain ⟨_, _, i3⟩ := py_prog_same_image D hv stack0 hs k _ hop hvv0
     rw [pyStruct_fit _ _ hop] at i3
     simp only [cStep, aStep, Option.some.inj i3, LK k hfitK hop]
     cases hl : lookup a k with
-    | none => exact ⟨⟨rfl, hfit⟩, Or.inl rfl⟩
+    | none => exact ⟨⟨rfl, hfit⟩, by trivial⟩
     | some v =>
       have hvf : allFit D.valFmts v = true := by
         obtain ⟨e, he, rfl⟩ := lookup_mem a k v hl
         exact (hfit e he).2
       simp only [Option.map_some, struct_roundtrip _ _ hvf]
-      exact ⟨⟨rfl, hfit⟩, Or.inl rfl⟩
+      exact ⟨⟨rfl, hfit⟩, by trivial⟩
   | prModify k v =>
     obtain ⟨hk, hvv⟩ := hop
     obtain ⟨_, _, i3⟩ := py_prog_same_image D hv stack0 hs k v hk hvv
     rw [pyStruct_fit _ _ hk] at i3
     simp only [cStep, aStep, Option.some.inj i3, LK k hfitK hk]
     cases hl : lookup a k with
-    | none => exact ⟨⟨rfl, hfit⟩, Or.inl rfl⟩
+    | none => exact ⟨⟨rfl, hfit⟩, by trivial⟩
     | some v0 =>
       have hvf : allFit D.valFmts v0 = true := by
         obtain ⟨e, he, rfl⟩ := lookup_mem a k v0 hl
@@ -663,22 +650,21 @@ theorem step_refines (D : DictDecl) (hv : D.valid = true) (stack0 : Bytes) (hs :
         rw [progStruct_eq 0 D.valFmts v _ lv (by rw [length_encStruct _ _ l0]; omega)]
         simp [setRange_eq, length_encStruct _ _ l0, length_encStruct _ _ lv]
       simp only [Option.map_some, hin, struct_roundtrip _ _ hvf, RP k v hfitK hk]
-      refine ⟨⟨rfl, ?_⟩, Or.inl rfl⟩
+      refine ⟨⟨rfl, ?_⟩, by trivial⟩
       exact mem_replace (fun e => allFit D.keyFmts e.1 = true ∧ allFit D.valFmts e.2 = true) a k v hfit
         (fun k' ⟨v', h'⟩ => ⟨(hfit _ h').1, hvv⟩)
 
-/-- **refinement** (partial: iterating an empty Dict excluded through `OutRel`): any sequence of Python-side and
-program-side operations on a Dict, started from related states (e.g. both empty), produces the observations of
-the abstract dictionary of member tuples and ends in related states — induction over the operation list. -/
-theorem refinement_partial (D : DictDecl) (hv : D.valid = true) (stack0 : Bytes) (hs : stack0.length = stackSize) :
+/-- **refinement**: any sequence of Python-side and program-side operations on a Dict, started from related
+states (e.g. both empty), produces exactly the observations of the abstract dictionary of member tuples and ends
+in related states — induction over the operation list. -/
+theorem refinement (D : DictDecl) (hv : D.valid = true) (stack0 : Bytes) (hs : stack0.length = stackSize) :
     ∀ (ops : List Op) (m : KMap) (a : AMap), Rel D m a → (∀ op ∈ ops, OpOk D op) →
-      Rel D (cRun D stack0 m ops).1 (aRun D a ops).1 ∧
-      OutsRel (aRun D a ops).2 (cRun D stack0 m ops).2
-  | [], m, a, hR, _ => ⟨hR, OutsRel.nil⟩
+      Rel D (cRun D stack0 m ops).1 (aRun D a ops).1 ∧ (cRun D stack0 m ops).2 = (aRun D a ops).2
+  | [], m, a, hR, _ => ⟨hR, rfl⟩
   | op :: ops, m, a, hR, hok => by
     obtain ⟨h1, h2⟩ := step_refines D hv stack0 hs m a hR op (hok op (by simp))
-    obtain ⟨h3, h4⟩ := refinement_partial D hv stack0 hs ops _ _ h1 (fun o ho => hok o (by simp [ho]))
-    exact ⟨h3, OutsRel.cons h2 h4⟩
+    obtain ⟨h3, h4⟩ := refinement D hv stack0 hs ops _ _ h1 (fun o ho => hok o (by simp [ho]))
+    exact ⟨h3, by simp only [cRun, aRun, h2, h4]⟩
 
 /-- the empty kernel map is the image of the empty dictionary -/
 theorem rel_empty (D : DictDecl) : Rel D [] [] := ⟨rfl, by simp⟩
@@ -705,18 +691,9 @@ theorem lookup_present_found (D : DictDecl) (hv : D.valid = true) (stack0 : Byte
   have hc : aStep D a (.prLookup k) = (a, .found v) := by simp [aStep, hp]
   obtain ⟨⟨hm, _⟩, ho⟩ := h
   rw [hc] at ho hm
-  rcases ho with ho | ⟨ho, _⟩
-  · have e1 : (cStep D stack0 m (.prLookup k)).1 = m := by
-      simp only [cStep]; split <;> rfl
-    exact Prod.ext e1 ho
-  · cases ho
-
-/-- the strict statement (observations *equal* to the abstract dictionary's) fails on the excluded class:
-iterating an empty Dict raises `RuntimeError` where the dictionary has no key to yield -/
-theorem iter_empty_refuted :
-    let D : DictDecl := ⟨[.I], [.q], 0, 4⟩
-    D.valid = true ∧ (cStep D (zeros stackSize) [] .pyIter).2 = .runtimeError ∧ (aStep D [] .pyIter).2 = .keys [] := by
-  decide
+  have e1 : (cStep D stack0 m (.prLookup k)).1 = m := by
+    simp only [cStep]; split <;> rfl
+  exact Prod.ext e1 ho
 
 /-! ### hash-map variables -/
 
@@ -850,20 +827,35 @@ theorem hashvar_cells_independent (vars : List HVar) (m : KMap) (op : HOp) (i j 
     repeat' split
     all_goals first | rfl | exact lookup_update_ne _ _ _ _ _ _ hne
 
-/-- a default `HashMap.load` can store: an integer in the 64-bit range of the variable's signedness -/
-def okDefault (x : HVar) : Bool :=
-  !x.defaultIsFloat && (if x.fmt.signed then fitsS 8 x.default else fitsU 8 x.default)
+/-- the value `HashMap.load` stores for a variable (0 when the default cannot be packed) -/
+def storedDefault (x : HVar) : Int := (pyStored x.fmt x.default x.defaultIsFloat).getD 0
 
-theorem pySet_ok (vars : List HVar) (m : KMap) (i : Nat) (x : HVar) (v : Int) (hx : vars[i]? = some x)
-    (hi : i + 1 ≤ hv_max_ordinal) (hv : (if x.fmt.signed then fitsS 8 v else fitsU 8 v) = true) :
-    hvPySet vars m i v false = ((update vars.length m (progKey i) (enc64 v) 0).1, .ok) := by
-  simp only [hvPySet, hx, pyKey_eq i hi, Bool.false_eq_true, ↓reduceIte, hv]
+/-- a default `HashMap.load` can store: it packs, in the 64-bit range of the variable's signedness -/
+def okDefault (x : HVar) : Bool :=
+  match pyStored x.fmt x.default x.defaultIsFloat with
+  | some w => if x.fmt.signed then fitsS 8 w else fitsU 8 w
+  | none => false
+
+theorem pySet_ok (vars : List HVar) (m : KMap) (i : Nat) (x : HVar) (v w : Int) (fl : Bool) (hx : vars[i]? = some x)
+    (hi : i + 1 ≤ hv_max_ordinal) (hw : pyStored x.fmt v fl = some w)
+    (hv : (if x.fmt.signed then fitsS 8 w else fitsU 8 w) = true) :
+    hvPySet vars m i v fl = ((update vars.length m (progKey i) (enc64 w) 0).1, .ok) := by
+  simp only [hvPySet, hx, pyKey_eq i hi, hw, hv, ↓reduceIte]
+
+theorem okDefault_spec (x : HVar) (h : okDefault x = true) :
+    pyStored x.fmt x.default x.defaultIsFloat = some (storedDefault x) ∧
+    (if x.fmt.signed then fitsS 8 (storedDefault x) else fitsU 8 (storedDefault x)) = true := by
+  unfold okDefault at h
+  unfold storedDefault
+  cases hp : pyStored x.fmt x.default x.defaultIsFloat with
+  | none => rw [hp] at h; cases h
+  | some w => rw [hp] at h; exact ⟨rfl, h⟩
 
 theorem load_inv (vars : List HVar) (hn : vars.length ≤ hv_max_ordinal) (hok : ∀ x ∈ vars, okDefault x = true) :
     ∀ (rest : List HVar) (i : Nat) (m : KMap), vars.drop i = rest → m.length ≤ i →
-      (∀ t x, t < i → vars[t]? = some x → lookup m (progKey t) = some (enc64 x.default)) →
+      (∀ t x, t < i → vars[t]? = some x → lookup m (progKey t) = some (enc64 (storedDefault x))) →
       (hvLoadFrom vars m i rest).2 = .ok ∧
-      ∀ t x, vars[t]? = some x → lookup (hvLoadFrom vars m i rest).1 (progKey t) = some (enc64 x.default)
+      ∀ t x, vars[t]? = some x → lookup (hvLoadFrom vars m i rest).1 (progKey t) = some (enc64 (storedDefault x))
   | [], i, m, hd, _, hinv => by
     refine ⟨rfl, fun t x hx => hinv t x ?_ hx⟩
     have h1 : vars.length ≤ i := by
@@ -880,12 +872,11 @@ theorem load_inv (vars : List HVar) (hn : vars.length ≤ hv_max_ordinal) (hok :
       have := congrArg (fun l => l[0]?) hd
       simpa using this
     have hmem : x ∈ vars := List.mem_of_getElem? hx
-    have hokx := hok x hmem
-    simp only [okDefault, Bool.and_eq_true, Bool.not_eq_true'] at hokx
+    have hokx := okDefault_spec x (hok x hmem)
     have hio : i + 1 ≤ hv_max_ordinal := by omega
-    have hset := pySet_ok vars m i x x.default hx hio hokx.2
-    have hup := lookup_update_same vars.length m (progKey i) (enc64 x.default) (Or.inr (by omega))
-    simp only [hvLoadFrom, hokx.1, hset]
+    have hset := pySet_ok vars m i x x.default (storedDefault x) x.defaultIsFloat hx hio hokx.1 hokx.2
+    have hup := lookup_update_same vars.length m (progKey i) (enc64 (storedDefault x)) (Or.inr (by omega))
+    simp only [hvLoadFrom, hset]
     have hd' : vars.drop (i + 1) = rest := by
       have := congrArg List.tail hd
       simpa using this
@@ -900,13 +891,13 @@ theorem load_inv (vars : List HVar) (hn : vars.length ≤ hv_max_ordinal) (hok :
       rw [lookup_update_ne _ _ _ _ _ _ (key_ne i t hio htl (Ne.symm hti))]
       exact hinv t y (by omega) hy
 
-/-- **hashvar_default**: after `HashMap.load` (at most 255 variables, integer defaults) every variable's cell
-holds its declared default: `load` succeeds and both sides read the default through the variable's format -/
+/-- **hashvar_default**: after `HashMap.load` (at most 255 variables, defaults that can be packed) every variable's
+cell holds its declared default (scaled by `FIXED_BASE` for a fixed-point variable): `load` succeeds and both sides read the default through the variable's format -/
 theorem hashvar_default (vars : List HVar) (hn : vars.length ≤ hv_max_ordinal) (hok : ∀ x ∈ vars, okDefault x = true) :
     (hvStep vars [] .load).2 = .ok ∧
     ∀ i x, vars[i]? = some x →
-      lookup (hvStep vars [] .load).1 (progKey i) = some (enc64 x.default) ∧
-      (hvStep vars (hvStep vars [] .load).1 (.prGet i)).2 = .value (x.fmt.view (enc64 x.default)) := by
+      lookup (hvStep vars [] .load).1 (progKey i) = some (enc64 (storedDefault x)) ∧
+      (hvStep vars (hvStep vars [] .load).1 (.prGet i)).2 = .value (x.fmt.view (enc64 (storedDefault x))) := by
   have h := load_inv vars hn hok vars 0 [] (by simp) (by simp) (by intro t x ht; omega)
   refine ⟨h.1, fun i x hx => ⟨h.2 i x hx, ?_⟩⟩
   have := h.2 i x hx
@@ -965,7 +956,7 @@ theorem hashvar_py_to_prog (vars : List HVar) (m : KMap) (i : Nat) (x : HVar) (f
     (hvStep vars (hvStep vars m (.pySet i v false)).1 (.prGet i)).2 = .value v := by
   have h64 : (if x.fmt.signed then fitsS 8 v else fitsU 8 v) = true := by
     rw [hf]; exact fits64 f v hfit
-  have hset := pySet_ok vars m i x v hx hi h64
+  have hset := pySet_ok vars m i x v v false hx hi (by rw [hf]; rfl) h64
   have hup := lookup_update_same vars.length m (progKey i) (enc64 v) hroom
   simp only [hvStep, hset, hx, hup.1, hf, view_enc64 f v hfit, and_self]
 
@@ -978,15 +969,23 @@ theorem hashvar_prog_to_py (vars : List HVar) (m : KMap) (i : Nat) (x : HVar) (f
   have hup := lookup_update_same vars.length m (progKey i) (enc64 v) hroom
   simp only [hvStep, hx, pyKey_eq i hi, hup.1, hf, view_enc64 f v hfit]
 
-/-- fixed-point (`"x"`) variables do not satisfy this from Python: after the program stored 1.5 (150000 scaled)
-Python cannot read the variable (`IndexError`), and Python cannot store 1.5 (`struct.error`) -/
-theorem hashvar_fixed_refuted :
-    let vars : List HVar := [⟨.fixed, 0, false⟩]
-    let m := (hvStep vars [] .load).1
-    (hvStep vars (hvStep vars m (.prSet 0 150000)).1 (.pyGet 0)).2 = .indexError ∧
-    (hvStep vars (hvStep vars m (.prSet 0 150000)).1 (.prGet 0)).2 = .value 150000 ∧
-    (hvStep vars m (.pySet 0 150000 true)).2 = .structError := by
-  decide
+theorem view_fixed (w : Int) (h : fitsS 8 w = true) : HFmt.fixed.view (enc64 w) = w := by
+  have := dec_enc .q w (by simpa [Fmt.fits, Fmt.signed, Fmt.size] using h)
+  simpa [HFmt.view, enc64, Fmt.dec, Fmt.enc, Fmt.signed, Fmt.size] using this
+
+/-- **fixed-point variables, both directions**: Python's `var = value` stores `round(value * FIXED_BASE)` (`w`, given
+scaled for a float, `v * FIXED_BASE` for an int) and the program reads that scaled value; what the program stores is
+what Python's read divides by `FIXED_BASE` (observed scaled) -/
+theorem hashvar_fixed_roundtrip (vars : List HVar) (m : KMap) (i : Nat) (x : HVar) (v w : Int) (fl : Bool)
+    (hx : vars[i]? = some x) (hf : x.fmt = .fixed) (hi : i + 1 ≤ hv_max_ordinal)
+    (hw : w = if fl then v else v * FIXED_BASE) (hfit : fitsS 8 w = true)
+    (hroom : lookup m (progKey i) ≠ none ∨ m.length < vars.length) :
+    (hvStep vars m (.pySet i v fl)).2 = .ok ∧
+    (hvStep vars (hvStep vars m (.pySet i v fl)).1 (.prGet i)).2 = .value w ∧
+    (hvStep vars (hvStep vars m (.prSet i w)).1 (.pyGet i)).2 = .value w := by
+  have hset := pySet_ok vars m i x v w fl hx hi (by rw [hf, hw]; rfl) (by rw [hf]; exact hfit)
+  have hup := lookup_update_same vars.length m (progKey i) (enc64 w) hroom
+  simp only [hvStep, hset, hx, hup.1, hf, pyKey_eq i hi, view_fixed w hfit, and_self]
 
 /-! ### non-vacuity: the hypotheses hold on concrete non-trivial declarations and histories -/
 
@@ -1001,9 +1000,10 @@ example : Rel exD [] [] := rel_empty exD
 example : (aRun exD [] [.prUpdate [10, 20, 30, 40] [7, -5, -6] 0, .pyGet [10, 20, 30, 40], .pyPop [10, 20, 30, 40],
     .prLookup [10, 20, 30, 40], .pyIter]).2 = [.r0 0, .value [7, -5, -6], .value [7, -5, -6], .els, .keys []] := by decide
 example : (cRun exD (zeros stackSize) [] [.prUpdate [10, 20, 30, 40] [7, -5, -6] 0, .pyGet [10, 20, 30, 40], .pyPop [10, 20, 30, 40],
-    .prLookup [10, 20, 30, 40], .pyIter]).2 = [.r0 0, .value [7, -5, -6], .value [7, -5, -6], .els, .runtimeError] := by
+    .prLookup [10, 20, 30, 40], .pyIter]).2 = [.r0 0, .value [7, -5, -6], .value [7, -5, -6], .els, .keys []] := by
   decide +kernel
-example : okDefault ⟨.plain .I, 5, false⟩ = true ∧ okDefault ⟨.plain .q, -7, false⟩ = true := by decide
+example : okDefault ⟨.plain .I, 5, false⟩ = true ∧ okDefault ⟨.plain .q, -7, false⟩ = true ∧
+    okDefault ⟨.fixed, 150000, true⟩ = true ∧ storedDefault ⟨.fixed, 3, false⟩ = 300000 := by decide
 example : target (.prAdd 1 200) = some 1 := rfl
 
 end Ebv.C09
